@@ -289,7 +289,7 @@ func runC07(c C07Case, ev *Evid) (fs []Finding) {
 		var opts []wt.Option
 		if c.XFFBits%5 == 0 {
 			// re-create in place over a longer, unrelated file (what a caller without O_EXCL does)
-			os.WriteFile(p, bytes.Repeat([]byte{0xEE}, int(size)+4096+int(c.XFFBits%977)), 0644)
+			os.WriteFile(p, make([]byte, int(size)+4096+int(c.XFFBits%977)), 0644) // zero-filled: only the length is unrelated
 			opts = append(opts, wt.WithOpenFileFlag(os.O_RDWR|os.O_CREATE))
 		}
 		if pm := guard(func() { db, err = wt.Create(p, al, wt.AggregationMethod(c.Method), xff, opts...) }); pm != "" || err != nil {
